@@ -290,7 +290,7 @@ pub fn run(rep: &mut Rep) {
         }
     }
     // (d) random
-    let n = rep.n(20_000, 1_000_000);
+    let n = rep.n(20_000, 20_000_000);
     for _ in 0..n * rep.nshards {
         case += 1;
         if !rep.mine(case) {
